@@ -51,6 +51,7 @@ type Profile struct {
 	InMemory                                                 bool
 	CloseInflight                                            bool // Close starts while CommitWith callbacks are still pending
 	WFlatten                                                 int
+	WStream, WBackup                                         int  // only the first client issues these
 	NoHold                                                   bool // no items/iterators held across other ops (drops are documented as unsafe against concurrent reads)
 	WGC, WDrop                                               int
 	NoIter                                                   bool
@@ -133,6 +134,7 @@ func genConfig(t *rapid.T, p *Profile) Config {
 	if p.Compaction {
 		c.Prefill = rapid.SampledFrom([]int{100, 250, 400, 700, 1200}).Draw(t, "prefill_k")
 		c.PrefillAllKeys = true
+		c.PrefillClustered = rapid.IntRange(0, 2).Draw(t, "prefill_clustered") > 0
 	}
 	return c
 }
@@ -225,6 +227,10 @@ func genValSize(t *rapid.T, p *Profile, cfg *Config) int {
 // genClient generates one client's script as a small state machine over two
 // transaction slots.
 func genClient(t *rapid.T, p *Profile, cfg *Config, nkeys, maxOps int) []Op {
+	return genClientN(t, p, cfg, nkeys, maxOps, 1)
+}
+
+func genClientN(t *rapid.T, p *Profile, cfg *Config, nkeys, maxOps, clientIdx int) []Op {
 	n := rapid.SampledFrom([]int{2, maxOps / 4, maxOps / 2, maxOps, maxOps}).Draw(t, "nops")
 	if n < 1 {
 		n = 1
@@ -351,6 +357,14 @@ func genClient(t *rapid.T, p *Profile, cfg *Config, nkeys, maxOps int) []Op {
 			}
 			continue
 		}
+		if clientIdx == 0 && p.WStream+p.WBackup > 0 && rapid.IntRange(0, 99).Draw(t, "streamish") < 25 {
+			if rapid.IntRange(0, p.WStream+p.WBackup-1).Draw(t, "sb") < p.WStream {
+				ops = append(ops, Op{K: "stream", N: rapid.IntRange(1, 4).Draw(t, "numgo"), Key: rapid.IntRange(0, nkeys-1).Draw(t, "skey"), S: rapid.IntRange(0, 2).Draw(t, "smode")})
+			} else {
+				ops = append(ops, Op{K: "backup"})
+			}
+			continue
+		}
 		cs := []choice{{p.WGet, "get"}, {p.WIter, "iter"}}
 		if p.WGC > 0 && !p.NoHold {
 			cs = append(cs, choice{3, "get_hold"}, choice{2, "iter_hold"}, choice{4, "read_held"})
@@ -423,7 +437,7 @@ func GenCase(t *rapid.T, p *Profile) *Case {
 	c.Keys = genKeys(t, p.MaxKeys)
 	nc := rapid.IntRange(p.MinClients, p.MaxClients).Draw(t, "nclients")
 	for i := 0; i < nc; i++ {
-		c.Clients = append(c.Clients, genClient(t, p, &c.Cfg, len(c.Keys), p.MaxOps))
+		c.Clients = append(c.Clients, genClientN(t, p, &c.Cfg, len(c.Keys), p.MaxOps, i))
 	}
 	c.Sched = genSched(t, p.MaxDec)
 	if p.Managed {
